@@ -155,7 +155,10 @@ def byz_request(g, mid, kind=None):
         m, a = g.a_bind_any()
         from .values import expected_message
 
-        return expected_message(m, a, mid)
+        msg = expected_message(m, a, mid)
+        if getattr(g, "versions", False) and r.random() < 0.25:
+            msg["version"] = r.choice([2, 2, 2, 1, 4, 0, 127])
+        return msg
     if kind == "SearchRequest":
         from .values import expected_message
 
@@ -287,7 +290,7 @@ def chunk_len(r, avail, style):
 
 
 def buf_kind(r):
-    k = r.choice(["bytes", "bytes", "bytearray", "memoryview"])
+    k = r.choice(["bytes", "bytes", "bytearray", "memoryview", "bytes", "bytes", "bytearray", "memoryview", "bytearray_viewed"])
     return k, (k != "bytes" and r.random() < 0.7)
 
 
@@ -318,7 +321,10 @@ def byz_raw_op(r, mid):
     if tag == 25:
         body = r.choice([b"", ber.octets(b"1.3.6.1.4.1.4203.1.9.1.4", ber.CONTEXT, 0) + ber.octets(b"\x01", ber.CONTEXT, 1)])
     elif tag == 10 or tag == 16:
-        return {"t": "RawOp", "id": mid, "controls": [], "tag": tag, "constructed": False, "body": (b"cn=x" if tag == 10 else b"\x01").hex()}
+        # DelRequest carries a DN; AbandonRequest the id to abandon: its own, the previous one, or 1
+        target = r.choice([mid, mid, mid - 1, 1]) if isinstance(mid, int) else 1
+        return {"t": "RawOp", "id": mid, "controls": [], "tag": tag, "constructed": False,
+                "body": (b"cn=x" if tag == 10 else ber.enc_int_content(max(0, target))).hex()}
     else:
         body = r.choice([b"", ber.enumerated(0) + ber.octets(b"") + ber.octets(b"")])
     return {"t": "RawOp", "id": mid, "controls": [], "tag": tag, "constructed": True, "body": body.hex()}
